@@ -59,6 +59,18 @@ var oddWhole = []string{
 	"package vpkg\nimport (\"net/http\"; \"time\"; \"io\"; \"os\"; \"database/sql\"; \"context\")\nfunc h(w http.ResponseWriter, r *http.Request) { http.Error(w, \"x\", 500) }\nfunc h2(w http.ResponseWriter, r *http.Request) { if r == nil { http.Error(w, \"x\", 500) }; w.Write(nil) }\nfunc t(a, b time.Time, d time.Duration) { _ = a.Sub(b); _ = time.Now().Sub(a); _ = a.Unix()/1000; _ = time.Duration(1) * time.Second; _ = d * time.Second; _ = a.Before(b) || a.Equal(b) }\nfunc i(w io.Writer, f *os.File, db *sql.DB, ctx context.Context) { io.WriteString(w, \"a\"); w.Write([]byte(\"a\")); f.Write([]byte(\"s\")); _, _ = http.NewRequest(\"GET\", \"\", nil); db.Exec(\"select\"); _, _ = db.Query(\"x\"); _, _ = db.QueryContext(ctx, \"x\"); defer f.Close(); os.Exit(1) }\n",
 }
 
+// file headers with Go-version build constraints (language version per file) over version-sensitive code
+func buildConstraintFiles() []string {
+	body := "package vpkg\n\nimport (\n\t\"os\"\n\t\"strings\"\n\t\"sync\"\n\t\"time\"\n)\n\nfunc vers(t time.Time, s string, m *sync.Map) {\n\t_ = os.FileMode(0644)\n\t_ = 0o17 + 017\n\t_ = t.Unix() / 1000\n\t_ = t.UnixNano() / 1000000\n\t_ = strings.Index(s, \"a\") != -1\n\tif v, ok := m.Load(1); ok {\n\t\tm.Delete(1)\n\t\t_ = v\n\t}\n\t_ = strings.Split(s, \"x\")[0]\n}\n"
+	var out []string
+	for _, v := range []string{"go1.12", "go1.13", "go1.16", "go1.17", "go1.18", "go1.20", "go1.21", "go1.22"} {
+		out = append(out, "//go:build "+v+"\n\n"+body)
+		out = append(out, "//go:build "+v+" && linux\n// +build "+v+",linux\n\n"+body)
+	}
+	out = append(out, "//go:build !go1.99\n\n"+body, "//go:build ignore || go1.16\n\n"+body, "// Code generated by x. DO NOT EDIT.\n\n//go:build go1.16\n\n"+body)
+	return out
+}
+
 // Odd emits the odd-syntax family: every snippet alone, every ordered pair of snippets, and the
 // whole-file list.
 func Odd(emit func(Prog)) {
@@ -77,6 +89,9 @@ func Odd(emit func(Prog)) {
 				emit(one(fmt.Sprintf("odd|%d+%d", i, j), "odd", "package vpkg\n\n"+a+"\n\n"+b+"\n", nil))
 			}
 		}
+	}
+	for i, w := range buildConstraintFiles() {
+		emit(one(fmt.Sprintf("oddbuild|%d", i), "odd", w, nil))
 	}
 	for i, w := range oddWhole {
 		emit(one(fmt.Sprintf("oddw|%d", i), "odd", w, nil))
